@@ -1093,6 +1093,59 @@ def rule_octree(chk):
     chk.floor('octree hmax bookkeeping sites', n, 20)
 
 
+WIDTH = {'char': 8, 'short': 16, 'int': 32, 'unsigned int': 32, 'unsigned': 32, 'uint32_t': 32, 'int32_t': 32, 'long': 64, 'unsigned long': 64, 'long long': 64,
+         'unsigned long long': 64, 'size_t': 64, 'Py_ssize_t': 64, 'uint64_t': 64, 'int64_t': 64}
+
+
+def ctype(text):
+    t = (text or '').split('(')[0].strip()
+    t = re.sub(r'\bint$', '', t).strip() if t not in ('int', 'unsigned int') and t.endswith(' int') else t
+    t = t.replace('const ', '')
+    return t
+
+
+def rule_narrowing(chk):
+    """keys of 64-bit-keyed containers (sparse cell tables) are computed in 64 bits end to end: a variable stored as such a key, or used to look one up, is declared at least as
+    wide as the key type (ids beyond 2**31 would otherwise be truncated at insertion and alias other cells, while the look-ups use the full id)"""
+    rels = [os.path.relpath(p, REPO) for p in sorted(glob.glob(os.path.join(REPO, 'pysph/base/*_nnps.pyx'))) if 'gpu' not in p] + [NB, 'pysph/base/octree.pyx']
+    n = 0
+    for rel in rels:
+        t = M.cy(rel)
+        for fn in [f for f in ast.walk(t) if isinstance(f, ast.FunctionDef)]:
+            decl, keyw = {}, {}
+            for a in ast.walk(fn):
+                if isinstance(a, ast.AnnAssign) and isinstance(a.target, ast.Name) and isinstance(a.annotation, ast.Constant) and isinstance(a.annotation.value, str):
+                    ty = a.annotation.value
+                    w = WIDTH.get(ctype(ty))
+                    if w is not None:
+                        decl[a.target.id] = (w, ty)
+                    m = re.match(r'^(?:map|unordered_map|pair)\[([^,\]]+),', ty)
+                    if m and WIDTH.get(ctype(m.group(1))) is not None:
+                        keyw[a.target.id] = (WIDTH[ctype(m.group(1))], ty)
+            if not keyw:
+                continue
+            for a in ast.walk(fn):
+                uses = []
+                if isinstance(a, ast.Assign) and isinstance(a.targets[0], ast.Attribute) and a.targets[0].attr == 'first' and isinstance(a.targets[0].value, ast.Name) \
+                        and a.targets[0].value.id in keyw and isinstance(a.value, ast.Name):
+                    uses.append((a.targets[0].value.id, a.value.id, a))
+                if isinstance(a, ast.Subscript) and isinstance(a.value, ast.Name) and a.value.id in keyw and isinstance(a.slice, ast.Name):
+                    uses.append((a.value.id, a.slice.id, a))
+                if isinstance(a, ast.Call) and isinstance(a.func, ast.Attribute) and a.func.attr in ('find', 'count', 'erase') and isinstance(a.func.value, ast.Name) \
+                        and a.func.value.id in keyw and a.args and isinstance(a.args[0], ast.Name):
+                    uses.append((a.func.value.id, a.args[0].id, a))
+                for cont, var, node in uses:
+                    if var not in decl:
+                        continue
+                    kw_, kty = keyw[cont]
+                    vw, vty = decl[var]
+                    n += 1
+                    chk.decide(vw >= kw_, 'ids-keep-their-width', '%s:%s:%s->%s' % (rel.split('/')[-1], M.qualname(fn), var, cont), node=node, file=rel, func=M.qualname(fn),
+                               detail_bad='`%s` is declared `%s` (%d bits) but is the key of `%s` (%s, %d-bit keys): ids beyond 2**31 are truncated here and alias other cells, while binning and the '
+                                          'stencil look-up use the full id' % (var, vty, vw, cont, kty, kw_), detail_ok='%s %s keys %s' % (vty, var, kty))
+    chk.floor('keys of 64-bit-keyed containers', n, 1)
+
+
 def rule_coindexed(chk):
     """x, y, z and h of one particle are read with one index: inside a loop the coordinate and smoothing-length pointers of the
     same array family must be subscripted by the same expression"""
@@ -1193,6 +1246,7 @@ def main(chk):
     rule_cell_size(chk)
     rule_no_pruning(chk, ci, concrete)
     rule_octree(chk)
+    rule_narrowing(chk)
     # only valid indices, no duplicates: a sort of the result must touch exactly the slice this query appended (rule shared with C05)
     import importlib.util
     spec = importlib.util.spec_from_file_location('c05mod', os.path.join(os.path.dirname(os.path.abspath(__file__)), 'c05.py'))
